@@ -1167,6 +1167,11 @@ fn svc_default(k: u8, rng: &mut Rng) -> ActorDecl {
     if rng.chance(1, 5) {
         d.started = vec![SStep::Yield];
     }
+    // a service that takes its time in stopped(): until that hook has returned it is still the running, registered
+    // instance for every registry operation
+    if rng.chance(1, 4) {
+        d.stopped = vec![SStep::Sleep(*rng.pick(&[1u64, 2, 3]))];
+    }
     d
 }
 
@@ -1727,6 +1732,9 @@ pub fn registry(rng: &mut Rng) -> Program {
             fresh.started = vec![SStep::Subscribe(0)];
             g.prog.topics = vec![0];
         }
+        if g.rng.chance(1, 4) {
+            fresh.stopped = vec![SStep::Sleep(*g.rng.pick(&[1u64, 2, 3]))];
+        }
         g.prog.actors.push(fresh);
     }
     g.layout(nclients);
@@ -1743,7 +1751,37 @@ pub fn registry(rng: &mut Rng) -> Program {
             }
             let k = g.rng.range(1, ntypes as u64) as u8;
             let ops = &mut g.prog.clients[c];
-            match g.rng.below(12) {
+            match g.rng.below(14) {
+                12 => {
+                    // a fresh instance is offered to the registry while the client keeps a clone: accepted or refused,
+                    // the instance lives on as long as the clone does, and answers through it
+                    ops.push(Op::SpawnActor { decl: (k - 1) as u16 }); // nslots
+                    ops.push(Op::Clone { slot: nslots }); // nslots + 1
+                    ops.push(Op::Register { slot: nslots }); // prev: nslots + 2
+                    ops.push(Op::Call { slot: nslots + 1, script: vec![], cancel: None });
+                    ops.push(Op::Sleep(1));
+                    ops.push(Op::Call { slot: nslots + 1, script: vec![], cancel: None });
+                    held.push((nslots + 1, k));
+                    nslots += 3;
+                    used += 1;
+                }
+                13 => {
+                    // the registered instance itself is offered again: register refuses it (it is running), replace
+                    // installs it and hands back the previous entry - which is that very instance
+                    ops.push(Op::SpawnActor { decl: (k - 1) as u16 }); // nslots
+                    ops.push(Op::Register { slot: nslots }); // prev: nslots + 1
+                    ops.push(Op::Clone { slot: nslots }); // nslots + 2
+                    if g.rng.chance(1, 2) {
+                        ops.push(Op::Register { slot: nslots + 2 }); // prev: nslots + 3
+                        ops.push(Op::Call { slot: nslots, script: vec![], cancel: None });
+                    } else {
+                        ops.push(Op::Replace { slot: nslots + 2 }); // prev: nslots + 3
+                        ops.push(Op::Call { slot: nslots + 3, script: vec![], cancel: None });
+                    }
+                    held.push((nslots, k));
+                    nslots += 4;
+                    used += 2;
+                }
                 0..=3 => {
                     ops.push(Op::FromRegistry { k });
                     ops.push(Op::Call { slot: nslots, script: vec![], cancel: None });
